@@ -48,6 +48,12 @@ func vhBucket(tag string, ncalls int, dirLens, srcLens []int) *stack.Bucket {
 		c.Func.DirName = vhText(t+".dir", dirLens[i])
 		c.Func.Name = vhText(t+".fn", 1)
 		c.SrcName = vhText(t+".src", srcLens[i])
+		// full / relative paths: some frames lie under no detected root
+		c.RemoteSrcPath = vhText(t+".remote", 3+srcLens[i])
+		if (i+dirLens[i])%2 == 0 {
+			c.LocalSrcPath = vhText(t+".local", 2+dirLens[i])
+			c.RelSrcPath = vhText(t+".rel", 1+srcLens[i]%2)
+		}
 		c.Line = 12
 		c.Args.Values = []stack.Arg{{Value: 1}}
 		b.Stack.Calls = append(b.Stack.Calls, c)
@@ -56,7 +62,9 @@ func vhBucket(tag string, ncalls int, dirLens, srcLens []int) *stack.Bucket {
 	return b
 }
 
-var vhFilter = regexp.MustCompile(`^[^X]*X`)
+// expressions: contains 'X'; starts with a digit (sensitive to a leading colour
+// code); contains an escape character
+var vhFilters = []*regexp.Regexp{regexp.MustCompile(`^[^X]*X`), regexp.MustCompile(`^[0-9]`), regexp.MustCompile("^[^\x1b]*\x1b")}
 
 func vhStrip(s string) string {
 	var out []byte
@@ -88,7 +96,10 @@ func vhJoin(parts []string) string {
 //verif:prop C16
 //verif:param k 1..3
 //verif:param shape quick=0,1 thorough=0..3
-func VH_C16_Buckets(k, shape int) {
+//verif:param pfmt 0..2
+//verif:param rx 0..2
+func VH_C16_Buckets(k, shape, pfmt, rx int) {
+	vhFilter := vhFilters[rx]
 	dirs := [][]int{{1, 3}, {0, 2}, {4, 1}, {2, 2}}
 	srcs := [][]int{{2, 1}, {3, 3}, {1, 4}, {0, 2}}
 	a := &stack.Aggregated{}
@@ -97,7 +108,7 @@ func VH_C16_Buckets(k, shape int) {
 		a.Buckets = append(a.Buckets, vhBucket("b"+string(rune('0'+i)), 1+(i+shape)%2, dirs[j], srcs[j]))
 	}
 	a.Buckets[0].First = true
-	pf := basePath
+	pf := pathFormat(pfmt)
 	// widths
 	srcLen, pkgLen := calcBucketsLengths(a, pf)
 	hitS, hitP := false, false
@@ -166,7 +177,8 @@ func VH_C16_Buckets(k, shape int) {
 //
 //verif:prop C16
 //verif:param k 1..3
-func VH_C16_Goroutines(k int) {
+//verif:param rx 0..2
+func VH_C16_Goroutines(k, rx int) {
 	s := &stack.Snapshot{}
 	for i := 0; i < k; i++ {
 		g := &stack.Goroutine{ID: 10 + i, First: i == 0, RaceAddr: 0x1000, RaceWrite: i%2 == 0}
@@ -193,4 +205,10 @@ func VH_C16_Goroutines(k int) {
 		vAssert(out.parts[2*i+1] == vhPalette.StackLines(&g.Signature, srcLen, pkgLen, pf), "goroutine stack lines in order")
 		vAssert(srcLen >= len(pf.formatCall(&g.Stack.Calls[0])) && pkgLen >= len(g.Stack.Calls[0].Func.DirName), "columns wide enough for every goroutine")
 	}
+	// filter / match split
+	vhFilter := vhFilters[rx]
+	fo, mo := &vhOut{}, &vhOut{}
+	_ = writeGoroutinesToConsole(fo, vhPalette, s, pf, false, vhFilter, nil)
+	_ = writeGoroutinesToConsole(mo, vhPalette, s, pf, false, nil, vhFilter)
+	vAssert(len(fo.parts)+len(mo.parts) == 2*k, "filter-out and match-only outputs together hold every goroutine once")
 }
